@@ -50,6 +50,10 @@ class QuiescentHang(Exception):
     """The main thread is blocked and nothing can happen any more"""
 
 
+class Livelock(Exception):
+    """The step budget (20 times what the longest plan needs) is exhausted: the scheduler does not terminate"""
+
+
 class MachineryError(Exception):
     pass
 
@@ -458,7 +462,7 @@ class Engine:
             )
         try:
             i = self.chooser.choose(labels, self)
-        except MachineryError:
+        except (MachineryError, Livelock):
             raise
         except Exception as e:      # a defect of the harness must never look like an outcome of the code under test
             raise MachineryError(f"chooser failed: {e!r}")
@@ -476,7 +480,7 @@ class Engine:
     def perform(self, o):
         self.steps += 1
         if self.steps > self.maxsteps:
-            raise MachineryError("step budget exhausted (livelock?)")
+            raise Livelock()
         if o[0] == "step":
             h = self.loop.peek()
             lab = self.classify(h, running=True)
@@ -747,7 +751,7 @@ class Engine:
             self.waiter = "ok"
         except FailedExperiment:
             self.waiter = "failed"
-        except (SchedulerDeath, QuiescentHang, MachineryError):
+        except (SchedulerDeath, QuiescentHang, Livelock, MachineryError):
             raise
         except Exception as e:
             self.waiter = "EXC:" + type(e).__name__
@@ -765,7 +769,7 @@ class Engine:
         self.record("JobWaitCall", {"j": key})
         try:
             r = job.wait().name
-        except (SchedulerDeath, QuiescentHang, MachineryError):
+        except (SchedulerDeath, QuiescentHang, Livelock, MachineryError):
             raise
         except Exception as e:
             r = "EXC:" + type(e).__name__
@@ -815,6 +819,9 @@ class Engine:
             self.record("End", {})
         except QuiescentHang:
             verdict = {"end": "hang"}
+            self.record("Hang", {})
+        except Livelock:
+            verdict = {"end": "livelock"}
             self.record("Hang", {})
         finally:
             self.uninstall()
